@@ -221,6 +221,23 @@ pub fn expect_lzma2(data: &[u8]) -> Expect {
         nsyms += r.syms.len();
         let base = cs.out.len();
         let ok = r.end == End::SizeReached && r.out.len() as u64 == target && r.consumed == take && take == packed && r.final_clean;
+        // The declared amount was produced and all declared input is present, but the chunk holds spare bytes after
+        // its last symbol, or the coder does not end on code 0.  C17 lists "needs MORE input than declared" and
+        // "produces more or fewer bytes than declared"; whether spare input is an error depends on whether it encodes
+        // further output.  If at least one more byte is decodable from the declared input the chunk "produces more
+        // than its declared size" (error); if not, the rules leave the verdict open.
+        if !ok && r.end == End::SizeReached && r.out.len() as u64 == target && take == packed {
+            let more = refdec::decode(payload, p, u64::MAX, Some(target + 1), Some((cs.clone(), probs.clone())));
+            let produces_more = matches!(&more, Some(m) if m.end == End::SizeReached && m.out.len() as u64 > target);
+            if !produces_more {
+                // decode on as a lenient decoder would (state after the declared output), verdict open from here
+                lenient = true;
+                cs = r.final_cs;
+                probs = r.final_probs;
+                pos += take;
+                continue;
+            }
+        }
         if !ok {
             let class_s = match r.end {
                 End::BadDistance => "dist",
